@@ -291,6 +291,23 @@ def check_symbols(ctx):
         a = [A.norm(A.expand(x, defs)) for x in call.args] + [k.arg + "=" + A.norm(A.expand(k.value, defs)) for k in call.keywords]
         ok = len(a) == 2 and f"{p0}[0]" in a[0] and f"{p0}[1:]" in a[1]
     ctx.check("C17.Y", "parser:parse_register-builds-Register(bank,index)", ok, "parse_register does not build Register(<bank from first char>, <index from the rest>)", repo.loc(tm, pr))
+    # every integer the printers write with str(int) (immediates, addresses, literal indices) is parsed with the one shared integer syntax
+    STRICT = ("isdigit", "isnumeric", "isdecimal", "isalnum")
+    for fname, must_call in (("_parse_base_address", ("_parse_value", "_parse_constant")), ("_parse_index", ("_parse_value", "_parse_constant")),
+                             ("parse_register", ("_parse_constant",)), ("_parse_value", ("_parse_constant",)), ("_parse_constant", ("is_number",))):
+        fn = tm.functions.get(fname)
+        if fn is None:
+            raise AnalysisError(f"text.{fname} not found")
+        ctx.fn("text." + fname)
+        calls = {A.call_name(c) for c in A.calls_in(fn)}
+        strict = sorted(c for c in calls if c in STRICT)
+        uses_shared = any(c in calls for c in must_call)
+        ctx.check("C17.Y", f"parser:{fname}:shared-integer-syntax", uses_shared and not strict,
+                  f"text.{fname} " + (f"validates its text with str.{strict[0]}(), which rejects the leading '-' that str(int) prints for negative values" if strict else f"no longer parses integers through {' / '.join(must_call)}")
+                  + ": a printed negative address / index / immediate is not accepted back", repo.loc(tm, fn), sample={"parser": fname, "calls": sorted(calls & set(must_call) | set(strict))})
+    pc = tm.functions["_parse_constant"]
+    ok = any(isinstance(r.value, ast.Call) and dotted(r.value.func) == "int" and len(r.value.args) == 1 and A.norm(r.value.args[0]) == A.param_names(pc)[0] for r in A.returns(pc))
+    ctx.check("C17.Y", "parser:_parse_constant:int()", ok, "_parse_constant does not return int(<its text>)", repo.loc(tm, pc), trivial=True)
     # negative numbers: printer str(int) may start with '-', parser's constant test must allow it
     isn = repo.get_function("netqasm.util.string", "is_number")
     allows_minus = any(isinstance(n, ast.Call) and isinstance(n.func, ast.Attribute) and n.func.attr == "startswith" and n.args and isinstance(n.args[0], ast.Constant) and n.args[0].value == "-" for n in ast.walk(isn))
@@ -342,6 +359,8 @@ SEEDS = [
     dict(id="c17-mnemonic", file="netqasm/lang/instr/core.py", expect="C17.N", construct="retreg", old='mnemonic: str = "ret_reg"', new='mnemonic: str = "retreg"'),
     dict(id="c17-parser-literal-delim", file="netqasm/lang/parsing/text.py", expect="C17.Y", construct="_parse_index",
          old="    if Symbols.SLICE_DELIM in index:\n        start, stop = index.split(Symbols.SLICE_DELIM)", new="    if \";\" in index:\n        start, stop = index.split(\";\")"),
+    dict(id="c17-address-isdigit", file="netqasm/lang/parsing/text.py", expect="C17.Y", construct="_parse_base_address", old="    value = _parse_value(base_address.lstrip(Symbols.ADDRESS_START))\n    if not isinstance(value, int):\n        raise TypeError(f\"Address should be an int, not a {type(value)}\")\n    return value",
+         new="    value = base_address[1:]\n    if not value.isdigit():\n        raise TypeError(\"Address should be an int\")\n    return int(value)"),
     dict(id="c17-exception", file="netqasm/lang/parsing/text.py", expect="C17.X", construct="set:pos1", old="    (GenericInstr.SET, 1),\n", new=""),
 ]
 BENIGN = [
